@@ -25,7 +25,19 @@ structure Node where
   persisted : Nat := 0                -- applied index written to the db by reportState (durable)
   queue : List Nat := []              -- commitC: minted, not yet executed (volatile)
   log : List Entry := []              -- entries in raft storage after the snapshot (durable)
+  hs : Nat × Nat × Nat := (0, 0, 0)   -- raft hard state in the WAL: term, vote, commit index (durable)
 deriving Repr, Inhabited
+
+/-- the hard state `RaftStorage.Store` writes with a Ready that carries entries or a snapshot: the term the replica is in
+(1 until it hears of another), the vote it has granted, the new commit index; a Ready with neither leaves it alone here
+(`setHardState` is that case) -/
+def storeHs (hs : Nat × Nat × Nat) (commit : Option Nat) : Nat × Nat × Nat :=
+  match commit with
+  | none => hs
+  | some c => (max 1 hs.1, hs.2.1, c)
+
+/-- a Ready without entries and without a snapshot: the replica moved to term `t` and / or granted its vote to `v` -/
+def setHardState (n : Node) (t v c : Nat) : Node := { n with hs := (t, v, c) }
 
 /-- `getBlockAppliedIndex`: the index stored for the highest height in the map -/
 def getBai (n : Node) : Nat :=
@@ -54,7 +66,7 @@ def publish (n : Node) (es : List Entry) : Node := es.foldl publish1 n
 
 /-- the Ready handler: store the entries, apply the new ones -/
 def ready (n : Node) (es : List Entry) : Node :=
-  publish { n with log := n.log ++ es } (entriesToApply n es)
+  publish { n with log := n.log ++ es, hs := storeHs n.hs (es.getLast?.map (·.idx)) } (entriesToApply n es)
 
 /-- a snapshot handed over by raft (index `idx`, chain height `height`): `Store` compacts the log, then
 `recoverFromSnapshot` is offered the blocks `ledger+1 … height` by the syncer (`ledger` = what the executor has
@@ -62,7 +74,7 @@ persisted) and mints exactly those that continue `lastExec` -/
 def installSnap (n : Node) (idx height ledger : Nat) : Node :=
   let n1 := (List.range' (ledger + 1) (height - ledger)).foldl (fun (m : Node) h =>
     if h = m.lastExec + 1 then { m with queue := m.queue ++ [h], lastExec := h } else m) n
-  { n1 with applied := idx, snapIdx := idx, log := n1.log.filter (fun e => e.idx > idx) }
+  { n1 with applied := idx, snapIdx := idx, log := n1.log.filter (fun e => e.idx > idx), hs := storeHs n1.hs (some idx) }
 
 /-- `maybeTriggerSnapshot` (compaction keeps `snapCount` entries before the snapshot in memory; what
 a restart re-delivers is governed by the snapshot on disk) -/
@@ -86,7 +98,7 @@ def execute (n : Node) : Node × Option Nat :=
 entries after the snapshot index -/
 def restart (n : Node) (ledger : Nat) : Node × List Entry :=
   let n0 : Node := { lastExec := ledger, applied := n.snapIdx, snapIdx := n.snapIdx, snapCount := n.snapCount,
-                     bai := [(ledger, n.persisted)], persisted := n.persisted, queue := [], log := n.log }
+                     bai := [(ledger, n.persisted)], persisted := n.persisted, queue := [], log := n.log, hs := n.hs }
   let re := n.log.filter (fun e => e.idx > n.snapIdx)
   (publish n0 (entriesToApply n0 re), re)
 
